@@ -297,6 +297,36 @@ func c07(w *core.World, r *core.Report) {
 		}
 	}
 
+	// ---- MEMO-SUCCESS-ONLY, part 2: no once-only execution of a collaborator call
+	{
+		collab := []string{"schema.Client.GetSchema", kModify, kTargetSet, "cache.Client.Read", "cache.Client.ReadCh", "cache.Client.GetKeys"}
+		cgm := w.CG()
+		n := 0
+		for _, f := range w.RepoFns {
+			if strings.Contains(core.FuncKey(f), "mocks/") {
+				continue
+			}
+			for _, c := range core.CallsTo(f, "sync.Once.Do") {
+				n++
+				args := core.CallArgs(c)
+				bad := ""
+				if len(args) == 1 {
+					tgts, _ := w.FuncTargets(args[0])
+					reach := cgm.Reachable(func(e core.Edge) bool { return e.Kind == "ref" }, tgts...)
+					for g := range reach {
+						for _, cc := range core.Calls(g) {
+							if core.CalleeIs(cc, collab...) {
+								bad = core.FuncKey(g) + " calls " + core.CalleeKey(cc)
+							}
+						}
+					}
+				}
+				r.Check(bad == "", "MEMO-SUCCESS-ONLY", core.Site(f, "sync.Once.Do"), w.InstrPos(c), "a collaborator call executed under sync.Once is memoised whatever its outcome: a transient failure is remembered for the life of the datastore ("+bad+")")
+			}
+		}
+		r.Extra["once_do_sites"] = n
+	}
+
 	// ---- COLLAB-ERRORS
 	r.Rule("COLLAB-ERRORS", 200, "error discipline on the transaction path: in every repository function reachable from Server.TransactionSet / Datastore.TransactionSet / TransactionRollback (call graph without function-value creation edges), each call that returns an error and whose callee is declared in the repository or is a method of a collaborator interface (cache.Client, target.Target, schema client, tree cache client, netconf driver) has that error tested or returned, and in functions with an error result no return with a nil error is reachable from the err!=nil edge. Frozen exceptions are keyed by '<function> -> <callee>' with a reason. Decides: a fault on this path cannot be turned into success by dropping or swallowing its error.")
 	cg := w.CG()
